@@ -36,6 +36,18 @@ impl Probe {
         )
     }
 
+    /// the same gateway.call_contract issued `n` times in ONE transaction by this contract, for itself
+    pub fn gw_call_n(env: Env, gateway: Address, chain: String, addr: String, payload: Bytes, n: u32) {
+        let me = env.current_contract_address();
+        for _ in 0..n {
+            env.invoke_contract::<()>(
+                &gateway,
+                &Symbol::new(&env, "call_contract"),
+                vec![&env, me.into_val(&env), chain.into_val(&env), addr.into_val(&env), payload.into_val(&env)],
+            );
+        }
+    }
+
     /// generic forwarder: this contract invokes `target.func(args)` itself
     pub fn fwd(env: Env, target: Address, func: Symbol, args: Vec<Val>) -> Val {
         env.invoke_contract::<Val>(&target, &func, args)
@@ -187,15 +199,19 @@ pub mod receivers {
     impl AcceptingApp {
         pub fn execute_with_interchain_token(
             env: Env,
-            _source_chain: String,
-            _message_id: String,
-            _source_address: Bytes,
-            _payload: Bytes,
+            source_chain: String,
+            message_id: String,
+            source_address: Bytes,
+            payload: Bytes,
             token_id: BytesN<32>,
-            _token_address: Address,
+            token_address: Address,
             amount: i128,
         ) {
-            env.events().publish((Symbol::new(&env, "token_executed"), token_id), amount);
+            // everything the application was handed, so that the binding can compare it with what was delivered
+            env.events().publish(
+                (Symbol::new(&env, "token_executed"), token_id),
+                (amount, source_chain, message_id, source_address, payload, token_address),
+            );
         }
     }
 }
